@@ -133,7 +133,10 @@ def run_dejitter(case):
             return {"classes": ["empty_reference"], "nontrivial": True}
         raise
     if not refs:
-        # nothing to align to: the only sensible result is the unchanged tier
+        # "empty references as error cases": with something to align the call raises (any exception type - the library's is a
+        # ValueError); an entry-less tier against an entry-less reference has nothing to do and may come back unchanged
+        if spec["entries"]:
+            raise Violation("empty-reference-accepted", f"{what}: a reference tier without entries was accepted for a tier with {len(spec['entries'])} entries")
         if snap_tier(res)["entries"] != b0["entries"]:
             raise Violation("timestamp-rule", "dejitter with an empty reference changed entries")
         return {"classes": ["empty_reference_returned"], "nontrivial": False}
@@ -175,6 +178,8 @@ def run_align(case):
             note_accept(f"empty reference: {type(e).__name__}")
             return {"classes": ["empty_reference"], "nontrivial": True}
         raise
+    if not refs and any(t["entries"] for t in spec["tiers"] if t["name"] != refname):
+        raise Violation("empty-reference-accepted", f"{what}: a reference tier without entries was accepted although other tiers have entries")
     if list(res.tierNames) != [t["name"] for t in spec["tiers"]]:
         raise Violation("tier-names", f"{what}: {res.tierNames}")
     if snap_tier(res.getTier(refname)) != ref_before:
